@@ -99,6 +99,29 @@ let run_callers (self : bytes) (toks : string list) : string =
   | [] -> "empty"
   | l -> String.concat " " l
 
+(* ---- both components end to end (harness/C17/zz_verif_c17_e2e_test.go) ---- *)
+let e2e_tuples = [| "100.10.02aabbcc0001"; "100.10.02aabbcc0011"; "100.11.02aabbcc0001"; "100.0.02aabbcc0002" |]
+let run_e2e (v : variant) (toks : string list) : string =
+  let show w t =
+    let k = key_of_tok e2e_tuples.(t) in
+    let ((ni, np), own) = e2e_snapshot w k in
+    let o = match own with
+      | None -> "-"
+      | Some p -> if p = proto_ipoe then "i" else if p = proto_pppoe then "p" else "?" in
+    Printf.sprintf "t%d:i%dp%d:%s" t (int_of_nat ni) (int_of_nat np) o in
+  let rec go w toks acc =
+    match toks with
+    | [] -> List.rev acc
+    | op :: rest ->
+      let t = Char.code op.[1] - 48 in
+      let k = key_of_tok e2e_tuples.(t) in
+      let w' = e2e_step v w (match op.[0] with
+          | 'D' -> EDiscover k | 'P' -> EPadr k | _ -> failwith ("bad e2e op " ^ op)) in
+      go w' rest (show w' t :: acc) in
+  match go world0 toks [] with
+  | [] -> "empty"
+  | l -> String.concat " " l
+
 (* ---- concurrent histories ---- *)
 let parse_conc (toks : string list) : op list array =
   (* toks: flags T {n ops} fin n ops *)
@@ -224,11 +247,25 @@ let () =
   let lines = read_lines Sys.argv.(1) in
   let impl = if Array.length Sys.argv > 2 && Sys.argv.(2) <> "-" then read_lines Sys.argv.(2) else [] in
   let impl = Array.of_list impl in
+  let variant = if Array.length Sys.argv > 3 && Sys.argv.(3) = "defective" then Defective else Repaired in
   List.iteri (fun idx line ->
       let out =
         try
           match tokens line with
           | [] -> "empty"
+          | "wgl" :: _expect :: rest ->
+            (* checker self-test: the history to judge is part of the case (after "@@") *)
+            let rec split acc = function
+              | "@@" :: h -> (List.rev acc, h)
+              | x :: r -> split (x :: acc) r
+              | [] -> (List.rev acc, []) in
+            let (body, hist) = split [] rest in
+            let h = String.concat " " hist in
+            let v = check_conc (parse_conc body) h in
+            if v = h then "accepted"
+            else if String.length v >= 6 && String.sub v 0 6 = "NONLIN" then "rejected"
+            else "malformed"
+          | "e2e" :: rest -> run_e2e variant rest
           | "ipoe" :: rest -> run_callers proto_ipoe rest
           | "pppoe" :: rest -> run_callers proto_pppoe rest
           | "seq" :: rest -> run_seq rest (if idx < Array.length impl then tokens impl.(idx) else [])
